@@ -11,6 +11,7 @@ import (
 	"go/ast"
 	"go/token"
 	"go/types"
+	"strconv"
 	"strings"
 )
 
@@ -923,5 +924,170 @@ func ruleDEDUP5(c *Ctx) {
 		c.ok("dedup-merges/builtin-module-instances", rd, "module constants are not merged")
 	default:
 		c.ok("dedup-merges/builtin-module-instances", arm, "imports of one module share one constant before de-duplication too")
+	}
+}
+
+// BLT.1 (C01): the builtin table. (a) every entry binds its name to the
+// function that is spelled like it (is_immutable_map -> builtinIsImmutableMap);
+// (b) the documented builtins are the table's; (c) every is_<type> predicate
+// answers true for exactly the type its name says: the set of types under
+// whose assertion (or switch case) it returns the true singleton is {Type},
+// and everything else falls to the false singleton.
+func ruleBLT1(c *Ctx) {
+	w := c.W
+	p := w.Root
+	lit := w.pkgVarLit(p, "builtinFuncs")
+	if lit == nil {
+		c.anchor("builtinFuncs")
+		return
+	}
+	camel := func(s string) string {
+		var b strings.Builder
+		for _, part := range strings.Split(s, "_") {
+			if part != "" {
+				b.WriteString(strings.ToUpper(part[:1]) + part[1:])
+			}
+		}
+		return b.String()
+	}
+	names := map[string]bool{}
+	trueObj := p.Types.Scope().Lookup("TrueValue")
+	falseObj := p.Types.Scope().Lookup("FalseValue")
+	for _, el := range lit.Elts {
+		cl, ok := el.(*ast.CompositeLit)
+		if !ok {
+			if u, isU := el.(*ast.UnaryExpr); isU {
+				cl, ok = u.X.(*ast.CompositeLit)
+			}
+		}
+		if !ok {
+			continue
+		}
+		var name string
+		var fn *types.Func
+		for _, f := range cl.Elts {
+			kv, ok := f.(*ast.KeyValueExpr)
+			if !ok {
+				continue
+			}
+			switch w.Src(kv.Key) {
+			case "Name":
+				if tv, ok := p.TypesInfo.Types[kv.Value]; ok && tv.Value != nil {
+					name, _ = strconv.Unquote(tv.Value.ExactString())
+				}
+			case "Value":
+				if id, ok := ast.Unparen(kv.Value).(*ast.Ident); ok {
+					fn, _ = p.TypesInfo.ObjectOf(id).(*types.Func)
+				}
+			}
+		}
+		if name == "" {
+			c.undecided("builtin/entry", cl, "a builtin table entry without a constant name")
+			continue
+		}
+		names[name] = true
+		want := "builtin" + camel(name)
+		c.check(fn != nil && fn.Name() == want, "builtin/"+name+"/bound", cl, "bound to "+want, "the builtin "+name+" is bound to "+func() string {
+			if fn == nil {
+				return "a value that is not a declared function"
+			}
+			return fn.Name()
+		}()+", expected the function spelled like it ("+want+")")
+		if !strings.HasPrefix(name, "is_") || fn == nil {
+			continue
+		}
+		fd := w.FuncDecl(p, fn.Name())
+		if fd == nil {
+			c.anchor(fn.Name())
+			continue
+		}
+		tn := camel(strings.TrimPrefix(name, "is_"))
+		switch tn {
+		case "Function":
+			tn = "CompiledFunction"
+		}
+		// what the predicate tests
+		var trueTypes []string
+		other := ""
+		ast.Inspect(fd.Body, func(nd ast.Node) bool {
+			retTrue := func(body []ast.Stmt) bool {
+				for _, st := range body {
+					if r, ok := st.(*ast.ReturnStmt); ok && len(r.Results) >= 1 {
+						if id, ok := ast.Unparen(r.Results[0]).(*ast.Ident); ok && p.TypesInfo.ObjectOf(id) == trueObj {
+							return true
+						}
+					}
+				}
+				return false
+			}
+			switch x := nd.(type) {
+			case *ast.IfStmt:
+				if !retTrue(x.Body.List) {
+					return true
+				}
+				var ta *ast.TypeAssertExpr
+				if as, ok := x.Init.(*ast.AssignStmt); ok && len(as.Rhs) == 1 {
+					ta, _ = ast.Unparen(as.Rhs[0]).(*ast.TypeAssertExpr)
+				}
+				if ta != nil && ta.Type != nil {
+					n, _ := namedName(p.TypesInfo.TypeOf(ta.Type))
+					trueTypes = append(trueTypes, n)
+				} else {
+					other = w.Src(x.Cond)
+				}
+			case *ast.CaseClause:
+				if !retTrue(x.Body) {
+					return true
+				}
+				for _, e := range x.List {
+					if tv, ok := p.TypesInfo.Types[e]; ok && tv.IsType() {
+						n, _ := namedName(tv.Type)
+						trueTypes = append(trueTypes, n)
+					}
+				}
+			}
+			return true
+		})
+		endsFalse := false
+		if n := len(fd.Body.List); n > 0 {
+			if r, ok := fd.Body.List[n-1].(*ast.ReturnStmt); ok && len(r.Results) >= 1 {
+				if id, ok := ast.Unparen(r.Results[0]).(*ast.Ident); ok && p.TypesInfo.ObjectOf(id) == falseObj {
+					endsFalse = true
+				}
+			}
+		}
+		key := "builtin/" + name + "/tests"
+		switch tn {
+		case "Undefined", "Callable", "Iterable":
+			wantCond := map[string]string{"Undefined": "UndefinedValue", "Callable": "CanCall()", "Iterable": "CanIterate()"}[tn]
+			c.check(len(trueTypes) == 0 && strings.Contains(other, wantCond) && !strings.Contains(other, "!") && endsFalse, key, fd, "true exactly when "+other, name+" answers true under `"+other+"` / for the types "+strings.Join(trueTypes, ",")+"; expected the test "+wantCond)
+		default:
+			c.check(len(trueTypes) == 1 && trueTypes[0] == tn && other == "" && endsFalse, key, fd, "true exactly for *"+tn, fmt.Sprintf("%s answers true for the types [%s]%s; expected exactly *%s and false otherwise", name, strings.Join(trueTypes, ", "), map[bool]string{true: " and under `" + other + "`", false: ""}[other != ""], tn))
+		}
+	}
+	// (b) docs/builtins.md
+	doc, err := readRepoFile(w, "docs/builtins.md")
+	if err != nil {
+		c.anchor("docs/builtins.md")
+		return
+	}
+	documented := map[string]bool{}
+	for _, l := range strings.Split(doc, "\n") {
+		if strings.HasPrefix(l, "## ") {
+			documented[strings.TrimSpace(strings.TrimPrefix(l, "## "))] = true
+		}
+	}
+	undocumented := map[string]string{"range": "added after the document was written (docs/builtins.md has no section for it)"}
+	for n := range names {
+		if _, tabled := undocumented[n]; tabled && !documented[n] {
+			c.ok("builtin/"+n+"/documented", nil, "tabled: "+undocumented[n])
+			continue
+		}
+		c.check(documented[n], "builtin/"+n+"/documented", nil, "has a section in docs/builtins.md", "the builtin "+n+" is not documented in docs/builtins.md")
+	}
+	for n := range documented {
+		if !names[n] {
+			c.fail("builtin/"+n+"/exists", nil, "docs/builtins.md documents "+n+", which is not in the builtin table")
+		}
 	}
 }
